@@ -247,7 +247,7 @@ func init() {
 	register(&propInfo{
 		id: "C14", patterns: []string{"./internal", "./template"},
 		trusted: genTrusted,
-		note:    "lemma-level: methodData (one Method with the method's name; parameters and results in signature order, bound to the signature's variables, variadic flag only on the last parameter of a variadic signature), typeParams (one entry per type parameter, in order, with its constraint), Generate (one Method per method of the looked-up interface, in order), ResolveVariableNameCollisions (names pairwise distinct and none equal to a name visible before: qualifiers, type strings), varName (generated names are not keywords, predeclared types or template identifiers), AddVar (type string reserved as a name); the list accessors of the data model (Method.ArgList, ArgTypeList, ArgTypeListEllipsis, ArgCallList*/argCallListSlice, ReturnArgTypeList, ReturnArgNameList, ReturnArgList, IsVariadic; Param.Name, TypeString, TypeStringEllipsis, TypeStringVariadicUnderlying, MethodArg, CallName): each list is the join of one piece per parameter or result, in order, built from that parameter's own name and type string with the documented accessor. That the offered type strings denote the same Go types (types.TypeString with the registry's qualifiers; Var.TypeString is trusted) is not decided.",
+		note:    "lemma-level: methodData (one Method with the method's name; parameters and results in signature order, bound to the signature's variables, variadic flag only on the last parameter of a variadic signature), typeParams (one entry per type parameter, in order, with its constraint), Generate (one Method per method of the looked-up interface, in order), ResolveVariableNameCollisions (names pairwise distinct and none equal to a name visible before: qualifiers, type strings), varName (generated names are not keywords, predeclared types or template identifiers), AddVar (type string reserved as a name); the list accessors of the data model (Method.ArgList, ArgTypeList, ArgTypeListEllipsis, ArgCallList*/argCallListSlice, ReturnArgTypeList, ReturnArgNameList, ReturnArgList, IsVariadic, the call-list wrappers, ReturnStatement, HasParams, HasReturns, AcceptsContext, ReturnsError; Param.Name, TypeString, TypeStringEllipsis, TypeStringVariadicUnderlying, MethodArg, CallName; Interface.TypeConstraint, TypeInstantiation; Interfaces.ImplementsSomeMethod; NewData): each list is the join of one piece per parameter, result or type parameter, in order, built from that element's own name and type string with the documented accessor. That the offered type strings denote the same Go types (types.TypeString with the registry's qualifiers; Var.TypeString is trusted) is not decided.",
 	})
 	register(&propInfo{
 		id: "C02", patterns: []string{"./internal", "./template"},
